@@ -2,6 +2,7 @@ import Driver.Util
 import GoBeans.Model.Store
 import GoBeans.Model.GC
 import GoBeans.Model.LogView
+import GoBeans.Model.Tree
 import GoBeans.Spec.KV
 
 /-! engine `seq`: a real HStore driven by one client, against
@@ -16,6 +17,7 @@ structure Cfg where
   height : Nat := 3
   checkVHash : Bool := false
   dfmax : Nat := 0
+  listKey : Nat := 256
 
 structure SpecEntryX where
   verExact : Bool := true      -- false once a version changed without a data write (check_vhash + explicit revision)
@@ -64,6 +66,46 @@ def fmtPos (bkt : Nat) (p : Option Store.Pos) : String :=
 /-- expected on-disk size of an uncompressed record -/
 def plainSize (klen blen : Nat) : Nat := (24 + klen + blen + 255) / 256 * 256
 
+def hex16 (n : Nat) : String :=
+  String.mk ((List.range 16).map fun i => hexDigit ((n / 16 ^ (15 - i)) % 16))
+
+def hexVal1 (c : Char) : Nat := hexVal c
+
+/-- canonical text of a listing: node lines in order; item lines sorted (leaf order is insertion order) -/
+def fmtListing : Tree.Listing → String
+  | .nodes ch => "[" ++ "|".intercalate ((List.range ch.length).map fun i =>
+      let (h, c) := ch.getD i (0, 0); s!"{String.mk [hexDigit i]}/ {h} {c}") ++ "]"
+  | .items es =>
+      let lines := (es.map fun e => s!"{hex16 e.khash} {e.vhash} {e.ver}").toArray.qsort (· < ·)
+      "[" ++ "|".intercalate lines.toList ++ "]"
+  | .none => "NIL"
+
+def canonListing (obs : String) : String :=
+  -- sort item lines of an observed listing (node listings keep their order)
+  if obs.startsWith "[" && obs.endsWith "]" then
+    let body := ((obs.drop 1).dropEnd 1).toString
+    let lines := if body.isEmpty then [] else body.splitOn "|"
+    if lines.all (fun l => l.contains '/') then obs
+    else "[" ++ "|".intercalate (lines.toArray.qsort (· < ·)).toList ++ "]"
+  else obs
+
+def contentOfTree (t : List (Nat × Store.TItem)) : Tree.Content :=
+  t.map fun (h, it) => { khash := h, ver := it.ver, vhash := it.vhash }
+
+def contentOfSpec (sp : Spec.KV) : Tree.Content :=
+  sp.map fun (k, e) => { khash := Ref.keyHash k, ver := e.ver, vhash := if e.ver > 0 then Ref.vhash e.body else 0 }
+
+/-- the listing at a hex prefix, from per-bucket contents -/
+def listAt (cfg : Cfg) (content : Nat → Tree.Content) (prefixStr : String) : Tree.Listing :=
+  let ds := prefixStr.toList.map hexVal1
+  let depth := depthOf cfg.nb
+  if ds.length ≥ depth then
+    let bkt := Tree.digitsVal (ds.take depth)
+    if !(cfg.served.contains bkt) then .items []
+    else Tree.listBucket (content bkt) depth cfg.height cfg.listKey ds
+  else
+    Tree.listUpper (fun b => if cfg.served.contains b then Tree.nodeSum (content b) depth b (cfg.height - 1) else (0, 0)) depth ds
+
 def filesOfModel (buckets : Array Store.Bucket) : String := Id.run do
   let mut out := ""
   let mut bi := 0
@@ -101,7 +143,8 @@ def run (lines : Array String) : IO Report := do
         let served := (((kvOpt opts "served").getD "").splitOn ",").filterMap (fun s => s.toNat?)
         let cv := (kvOpt opts "checkvhash").getD "0" == "1"
         let dfmax := ((kvOpt opts "dfmax").getD "0").toNat!
-        let cfg : Cfg := { nb := nb, served := served, height := ((kvOpt opts "height").getD "3").toNat!, checkVHash := cv, dfmax := dfmax }
+        let cfg : Cfg := { nb := nb, served := served, height := ((kvOpt opts "height").getD "3").toNat!, checkVHash := cv, dfmax := dfmax,
+                           listKey := ((kvOpt opts "listkey").getD "256").toNat! }
         st := { cfg := cfg, caseId := id, buckets := Array.replicate nb ({} : Store.Bucket), spec := [],
                 scfg := { dataFileMax := dfmax, checkVHash := cv, bodyMax := ((kvOpt opts "bodymax").getD "1048576").toNat! }, active := true }
         cases := cases + 1
@@ -240,6 +283,36 @@ def run (lines : Array String) : IO Report := do
           | .miss => if obs ≠ "MISS" then diff rep ln "oracle" s!"case={cid} key=C01/meta spec=MISS impl={obs}"
           | _ => pure ()
           ok rep
+    | ["list", pfx] =>
+        let pfx := if pfx == "-" then "" else pfx
+        let depth := depthOf st.cfg.nb
+        let m := fmtListing (listAt st.cfg (fun b => contentOfTree (st.buckets[b]!).tree) pfx)
+        let o := canonListing obs
+        if m ≠ o then diff rep ln "model" s!"case={cid} list {pfx}: model={m.take 160} impl={o.take 160}"
+        -- oracle: recomputation from the reference content alone
+        let specContent := contentOfSpec st.spec
+        let sc := fun (b : Nat) => specContent.filter (fun e => Tree.topDigits e.khash depth == b)
+        let sl := listAt st.cfg sc pfx
+        match sl with
+        | .nodes _ =>
+            if fmtListing sl ≠ o then diff rep ln "oracle" s!"case={cid} key=C08/node-summary list {pfx}: content says {(fmtListing sl).take 160} impl={o.take 160}"
+        | .items es =>
+            -- live entries exactly; tombstones may or may not be listed; nothing else
+            let body : String := if o.length ≥ 2 then ((o.drop 1).dropEnd 1).toString else ""
+            let lines := if body.isEmpty then [] else body.splitOn "|"
+            if lines.any (fun l => l.contains '/') then
+              diff rep ln "oracle" s!"case={cid} key=C08/node-summary list {pfx}: content says items, impl lists nodes {o.take 120}"
+            else
+              let live := (es.filter (fun e => e.ver > 0)).map fun e => s!"{hex16 e.khash} {e.vhash} {e.ver}"
+              let tomb := (es.filter (fun e => e.ver < 0)).map fun e => s!"{hex16 e.khash} {e.vhash} {e.ver}"
+              let inexactLine := fun (l : String) => st.inexact.any (fun k => l.startsWith (hex16 (Ref.keyHash k)))
+              for l in live do
+                if !(lines.contains l) && !(inexactLine l) then diff rep ln "oracle" s!"case={cid} key=C08/missing-live-item list {pfx}: live entry {l} not listed"
+              for l in lines do
+                if !(live.contains l) && !(tomb.contains l) && !(inexactLine l) then
+                  diff rep ln "oracle" s!"case={cid} key=C08/spurious-item list {pfx}: listed entry {l} is neither a live key nor a tombstone of the content"
+        | .none => pure ()
+        ok rep
     | ["flush"] =>
         st := { st with buckets := st.buckets.map fun b => (Store.step hash st.scfg b .flush).1 }
     | "restart" :: opts =>
